@@ -1411,6 +1411,7 @@ func (vx *Vaxis) openTty(tgts []*os.File) error {
 				case ansi.EOF:
 					return
 				default:
+					verifHook("input.seq")
 					vx.handleSequence(seq)
 					vx.parser.Finish(seq)
 				}
